@@ -258,9 +258,37 @@ func main() {
 			specs = append(specs, scenario(fmt.Sprintf("mix%d/%s/init%d", k, strings.Join(names, "|"), ii), init, p...))
 		}
 	}
+	// every unordered triple of method instances as three goroutines
+	for ii, init := range inits {
+		for i := range menu {
+			for j := i; j < len(menu); j++ {
+				for k := j; k < len(menu); k++ {
+					s3 := scenario(fmt.Sprintf("triple/%s|%s|%s/init%d", menu[i].name, menu[j].name, menu[k].name, ii), init, []string{menu[i].name}, []string{menu[j].name}, []string{menu[k].name})
+					specs = append(specs, s3)
+				}
+			}
+		}
+	}
+	four := [][][]string{
+		{{"SetNx(a)"}, {"SetNx(a)"}, {"Delete(a)"}, {"Keys"}},
+		{{"Set(a)"}, {"Set(b)"}, {"Clear"}, {"Range"}},
+		{{"SetX(a)"}, {"Delete(a,b)"}, {"Map(set b)"}, {"Values"}},
+		{{"GetWithMap(a,b)"}, {"Set(a)", "Set(b)"}, {"Delete(a)"}, {"Len"}},
+	}
+	for ii, init := range inits {
+		for k, p := range four {
+			var names []string
+			for _, t := range p {
+				names = append(names, strings.Join(t, ","))
+			}
+			s4 := scenario(fmt.Sprintf("four%d/%s/init%d", k, strings.Join(names, "|"), ii), init, p...)
+			s4.ThoroughOnly, s4.Heavy = true, true
+			specs = append(specs, s4)
+		}
+	}
 	sched.Main("C12", specs,
 		[]string{
-			"small scope: all unordered pairs of 18 method instances as two goroutines with one call each, plus eight 3-goroutine mixes with <= 2 calls each; keys {a,b}; start states {} and {a:1}",
+			"small scope: all unordered pairs and all unordered triples of 18 method instances as two / three goroutines with one call each, plus eight 3-goroutine mixes with <= 2 calls each (thorough: four 4-goroutine mixes); keys {a,b}; start states {} and {a:1}",
 			"race detection covers the locations the instrumenter probes: the entries field and the content of the map it refers to (two locations), in every explored schedule; callbacks given to Range/All/GetWithLock/Map yield while the lock is held",
 			"the RWMutex shim has no writer preference (a superset of Go's behaviours)",
 		},
